@@ -61,6 +61,11 @@ def r1_once(c, facts):
     fn = c.anchor(R, L)
     loops = loop_blocks(fn)
     gets = [(b, t) for b, t in P.call_blocks(fn, 'HashMap::get') if b in loops]
+    entry_form = False
+    if not gets:
+        # `match deps.entry(import) { Occupied(known) => .., Vacant(unknown) => { .. unknown.insert(m) } }`
+        gets = [(b, t) for b, t in P.call_blocks(fn, 'HashMap::entry') if b in loops]
+        entry_form = bool(gets)
     if not gets:
         c.bad(R, 'no-dedup-lookup', 'module::load no longer looks an import up in the table of already loaded modules')
         return
@@ -72,7 +77,7 @@ def r1_once(c, facts):
         sw = fn.mir['blocks'][cur]['term']
         if sw['t'] == 'switch':
             ee = P.enum_edges(sw)
-            some_t, none_t = ee.get('1'), ee.get('0')
+            some_t, none_t = (ee.get('0'), ee.get('1')) if entry_form else (ee.get('1'), ee.get('0'))     # Entry: Occupied = 0, Vacant = 1
             break
         if sw['t'] in ('goto',):
             cur = sw['target']
@@ -99,7 +104,7 @@ def r1_once(c, facts):
         start = arms[0] if arms else pt['target']
         for label, suffix in must.items():
             # the edge may be added once after the two arms have joined (`let m = match deps.get(..) {..}; add_edge(m, n)`)
-            sites = [b for b, t in P.call_blocks(fn, *((suffix, 'update_edge') if label == 'graph.add_edge' else (suffix,))) if fn.dominates(none_t, b) or (label == 'graph.add_edge' and b in loops)]
+            sites = [b for b, t in P.call_blocks(fn, *((suffix, 'update_edge') if label == 'graph.add_edge' else (suffix, 'VacantEntry::insert', 'VacantEntry::insert_entry') if label == 'deps.insert' else (suffix,))) if fn.dominates(none_t, b) or (label == 'graph.add_edge' and b in loops)]
             if not sites:
                 c.bad(R, 'unseen-arm-missing:' + label, 'the not-yet-seen arm no longer calls %s' % label)
                 continue
@@ -497,6 +502,23 @@ def r6_complete(c, facts):
     plain_th = facts.fns.get(th.id, th)
     th = plain_th
     topo_cl = [x.qname for x in facts.family(th) if x.id != th.id and (x.kind == 'Closure' or (x.qname not in (facts.known_fns or ()) and on_error_arm(x)))]
+    # ... or in the function of the sort itself, on the Err arm of its result (`match toposort(..) { Ok(t) => t, Err(e) => return Err(..CycleDetected..) }`)
+    def in_th_on_error_arm():
+        tp = P.call_blocks(th, 'toposort')
+        if not tp:
+            return False
+        cur = tp[0][1]['target']
+        sw = th.mir['blocks'][cur]['term']
+        hops = 0
+        while sw['t'] != 'switch' and 'target' in sw and hops < 3:
+            cur = sw['target']; sw = th.mir['blocks'][cur]['term']; hops += 1
+        ee = P.enum_edges(sw) if sw['t'] == 'switch' else {}
+        if '1' not in ee:
+            return False
+        blocks = [b for b, blk in th.blocks() for st in blk['stmts'] if st['s'] == 'assign' and st['rv']['r'] == 'aggr' and st['rv'].get('variant') == 'CycleDetected']
+        return bool(blocks) and all(th.dominates(ee['1'], b) or b == ee['1'] for b in blocks)
+    if th.qname in sites and th.qname not in topo_cl and in_th_on_error_arm():
+        topo_cl.append(th.qname)
     if sites and all(q in topo_cl for q in sites):
         c.ok(R, {'Kind::CycleDetected constructed in': sites})
     else:
